@@ -1,6 +1,8 @@
 import BigDec.Model.Float
 import BigDec.Spec.Float
 import BigDec.Proofs.Value
+import BigDec.Model.ToF64
+import BigDec.Proofs.F64Round
 /-! # C14 — binary floats convert to decimals exactly -/
 namespace BigDec
 open Generated
@@ -131,7 +133,55 @@ theorem C14_nan_inf (bits : Nat) :
   ⟨(parseFromFloat_exact 8 23 _ (by rw [C14_five149]; norm_num) (by norm_num) bits).1,
    (parseFromFloat_exact 11 52 _ (by rw [C14_five1074]; norm_num) (by norm_num) bits).1⟩
 
+/-! ## `to_f64`
+
+`F64.toF64` is a bit-exact executable model of `to_f64` (the correspondence check compares the 64 result
+bits with the real code on every generated decimal): the digit-trimming loop, then one of three
+paths, each built from correctly rounded primitives - `BigUint::to_f64`, compiler-rt's `powi` by
+repeated squaring, an IEEE multiplication, and the standard float parser.  All of these are the one
+function `F64.rne` ("round `a/b` to the nearest double, ties to even") applied to exact rationals;
+`C14_rne_nearest` proves that `rne` is what it claims.  The end-to-end tolerance (2^-48 relative) is
+judged per generated decimal in exact rational arithmetic; the theorems below settle the two
+single-rounding paths for all inputs. -/
+
+/-- **the rounding primitive is round-to-nearest**: for every positive rational `a/b` the result is
+    infinity or a finite double within `2^-53 · a/b` of it (normal range) resp. within `2^-1075`
+    (subnormal range) -/
+theorem C14_rne_nearest (a b : Nat) (ha : 0 < a) (hb : 0 < b) :
+    F64.rne a b = F64.inf ∨
+    (((2 : ℚ) ^ (-1022 : Int) ≤ (a : ℚ) / b → |F64.valQ (F64.rne a b) - (a : ℚ) / b| ≤ (a : ℚ) / b * (2 : ℚ) ^ (-53 : Int)) ∧
+     ((a : ℚ) / b < (2 : ℚ) ^ (-1022 : Int) → |F64.valQ (F64.rne a b) - (a : ℚ) / b| ≤ (2 : ℚ) ^ (-1075 : Int))) :=
+  F64.rne_spec a b ha hb
+
+/-- zero converts to `+0.0` whatever its scale -/
+theorem C14_toF64_zero (neg : Bool) (scale : Int) : F64.toF64 neg 0 scale = 0 := by
+  unfold F64.toF64; simp
+
+/-- integers (scale 0) take the `BigUint::to_f64` path: the sign bit plus the correctly rounded
+    magnitude - relative error at most 2^-53, or infinity -/
+theorem C14_toF64_integer (neg : Bool) (n : Nat) (hn : 0 < n) :
+    F64.toF64 neg n 0 = (if neg then 2 ^ 63 else 0) + F64.rne n 1 ∧
+    (F64.rne n 1 = F64.inf ∨ |F64.valQ (F64.rne n 1) - (n : ℚ)| ≤ (n : ℚ) * (2 : ℚ) ^ (-53 : Int)) := by
+  constructor
+  · unfold F64.toF64 F64.ofNat
+    have : (n == 0) = false := by simp; omega
+    simp [this]
+  · rcases F64.rne_spec n 1 hn (by norm_num) with h | ⟨h1, _⟩
+    · exact Or.inl h
+    · right
+      have hq : (2 : ℚ) ^ (-1022 : Int) ≤ ((n : ℚ)) / ((1 : Nat) : ℚ) := by
+        have h1n : (1 : ℚ) ≤ (n : ℚ) := by exact_mod_cast hn
+        have : (2 : ℚ) ^ (-1022 : Int) ≤ 1 := zpow_le_one_of_nonpos₀ (by norm_num) (by norm_num)
+        simp only [Nat.cast_one, div_one]; linarith
+      have := h1 hq
+      simpa using this
+
 /-- 1.5 = 0x3FF8000000000000 converts to 15e-1 -/
 example : ofF64 0x3FF8000000000000 = some ⟨15, 1⟩ := by decide
+
+/-- the primitives of the `to_f64` model on literals: 0.1, 10^22 (exact), 10^23 (inexact), 100 = 1·10^2 -/
+example : F64.rne 1 10 = 0x3FB999999999999A ∧ F64.powi F64.ten 22 = 4936209963552724370 ∧
+    F64.powi F64.ten 23 = 4950912855330343670 ∧ F64.mul (F64.ofNat 1) (F64.powi F64.ten 2) = 0x4059000000000000 := by
+  refine ⟨by decide +kernel, by decide +kernel, by decide +kernel, by decide +kernel⟩
 
 end BigDec
